@@ -11,6 +11,7 @@ import (
 	"net"
 	"os"
 	"sync"
+	"sync/atomic"
 	"time"
 
 	"verif/h/rfc8907"
@@ -62,6 +63,9 @@ type Net struct {
 	// keepLog=false drops events (only counters kept) for bulk workloads.
 	keepLog bool
 	counts  map[string]int
+	// hung is set once a wait hit the watchdog: the server under test is stuck, and
+	// every later wait fails at once instead of spending the watchdog again
+	hung int32
 }
 
 // New creates a world.
@@ -438,6 +442,9 @@ type State struct {
 // WaitQuiescent returns once the server has consumed everything fed so far and
 // is parked in Read, or has closed the connection.
 func (c *Conn) WaitQuiescent() (State, error) {
+	if atomic.LoadInt32(&c.net.hung) != 0 {
+		return State{}, ErrWatchdog
+	}
 	deadline := time.Now().Add(c.net.Watchdog)
 	c.mu.Lock()
 	defer c.mu.Unlock()
@@ -449,6 +456,7 @@ func (c *Conn) WaitQuiescent() (State, error) {
 			return State{Blocked: true}, nil
 		}
 		if time.Now().After(deadline) {
+			atomic.StoreInt32(&c.net.hung, 1)
 			return State{}, ErrWatchdog
 		}
 		c.timedWait(100 * time.Millisecond)
@@ -457,11 +465,15 @@ func (c *Conn) WaitQuiescent() (State, error) {
 
 // WaitClosed waits for the server to close the connection.
 func (c *Conn) WaitClosed() error {
+	if atomic.LoadInt32(&c.net.hung) != 0 {
+		return ErrWatchdog
+	}
 	deadline := time.Now().Add(c.net.Watchdog)
 	c.mu.Lock()
 	defer c.mu.Unlock()
 	for !c.closed {
 		if time.Now().After(deadline) {
+			atomic.StoreInt32(&c.net.hung, 1)
 			return ErrWatchdog
 		}
 		c.timedWait(100 * time.Millisecond)
